@@ -30,9 +30,9 @@ sys.path.insert(0, os.path.join(os.path.dirname(os.path.abspath(__file__)), ".."
 import common  # noqa: E402
 
 THEOREMS = [
-    "C13_recv_except_known", "C13_known_1_refuted", "C13_known_2_refuted",
-    "C13_length", "C13_length_clean_iff", "C13_send", "C13_send_except_known", "C13_known_3_refuted",
-    "C13_stream_run", "C13_nonvacuous",
+    "C13_recv_except_known", "C13_known_1_refuted", "C13_known_2_refuted", "C13_stream_step",
+    "C13_length", "C13_length_clean_iff", "C13_length_head", "C13_length_trailers",
+    "C13_send", "C13_send_except_known", "C13_send_push_except_known", "C13_known_3_refuted", "C13_nonvacuous",
 ]
 
 PARTIAL = [
